@@ -674,10 +674,41 @@ pub fn case_b<H: Sh, T: Sh>(len: usize, ctor: usize, rel: usize, st: &mut SStats
                     );
                     let g = shadow::untracked(|| c.load_full());
                     drop(g);
+                    // the three RefCnt functions must agree on one address (the one from_raw takes), or arc-swap's
+                    // debt bookkeeping pays back a reference it never took
+                    let ap = <ThinArc<H, T> as arc_swap::RefCnt>::as_ptr(&keep) as usize;
+                    ensure!(
+                        ap == heap,
+                        "C11,C10",
+                        "ptr",
+                        "{}: RefCnt::as_ptr for ThinArc is {:#x}, into_ptr/from_ptr use the allocation address {:#x}",
+                        what,
+                        ap,
+                        heap
+                    );
+                    {
+                        let g = shadow::untracked(|| c.load());
+                        ensure!(
+                            g.heap_ptr() as usize == heap && g.slice.len() == len,
+                            "C11,C10",
+                            "ptr",
+                            "{}: an arc-swap load() guard exposes another allocation or length",
+                            what
+                        );
+                        shadow::untracked(|| drop(g));
+                    }
+                    ensure!(
+                        ThinArc::strong_count(&keep) == 2,
+                        "C11,C10,C04",
+                        "ptr",
+                        "{}: after an arc-swap load() guard was released the count is {} with 2 owners",
+                        what,
+                        ThinArc::strong_count(&keep)
+                    );
                     shadow::untracked(|| drop(c));
                     {
                         drop(keep);
-                        "arc-swap(ThinArc) new/load_full/drop"
+                        "arc-swap(ThinArc) new/load_full/load/drop"
                     }
                 }
                 #[cfg(not(feature = "full"))]
@@ -703,7 +734,15 @@ pub fn case_b<H: Sh, T: Sh>(len: usize, ctor: usize, rel: usize, st: &mut SStats
             _ => unreachable!(),
         })
     })?;
-    check_released(&format!("{} ({})", what, relname), heap)?;
+    check_released_p(
+        &format!("{} ({})", what, relname),
+        heap,
+        if relname.contains("thin") || relname.contains("ThinArc") {
+            "C05,C01,C10"
+        } else {
+            "C05,C01"
+        },
+    )?;
     ensure!(
         tk::z_live() == z0,
         "C05,C01,C06",
